@@ -347,4 +347,4 @@ def _obligations():
 
 
 def obligations():
-    return _obligations() + [constructors_obligation(['cryomotl.Motl', 'cryomotl.EmMotl']), labels_obligation("C18"), selectors_obligation("C18"), mutations_obligation("C18"), effects_obligation("C18"), plumbing_obligation("C18"), overrides_obligation("C18"), options_obligation("C18"), handlers_obligation("C18")]
+    return _obligations() + [constructors_obligation(['cryomotl.Motl', 'cryomotl.EmMotl']), labels_obligation("C18"), selectors_obligation("C18"), mutations_obligation("C18"), loopstate_obligation("C18"), effects_obligation("C18"), plumbing_obligation("C18"), overrides_obligation("C18"), options_obligation("C18"), handlers_obligation("C18")]
